@@ -1,2 +1,3 @@
 import GqlProofs.Props.C03
 import GqlProofs.Props.C15
+import GqlProofs.Props.C14
